@@ -22,7 +22,10 @@ Record vobs := {
 Inductive c18case :=
 | VHist (t : vty) (steps : list vobs)
 | VCtor (items : iterarg) (value_type : option vty) (out : res (vty * list sval))
-| VEq (l1 : list sval) (u1 : Z) (l2 : list sval) (u2 : Z) (eq : bool).
+| VEq (l1 : list sval) (u1 : Z) (l2 : list sval) (u2 : Z) (eq : bool)
+| VSubclass (first : Z) (items : list Z)      (* classes of the first item and of the items offered after it (constructor or appends):
+                                                 0 float, 1 numpy.float64, 2 str, 3 numpy.str_, 4 int, 5 an IntEnum, 6 bool *)
+            (accepted vt_is_first : bool) (stored : Z).
 
 (* the property-strength oracle: list semantics for accepted operations; TypeError and nothing stored
    for a wrong-typed value (for extend / += the items before the offending one may have been
@@ -56,4 +59,10 @@ Definition c18_spec_ok (c : c18case) : bool :=
       | _, _ => false
       end
   | VEq l1 u1 l2 u2 eq => Bool.eqb eq (list_eqb py_eqb l1 l2 && (u1 =? u2))
+  | VSubclass first items accepted vt_first stored =>
+      (* the value type is the class of the first item - a subclass of float / str / int included - and every other item
+         must be an instance of THAT class; nothing of a refused call is stored *)
+      let isa (c d : Z) : bool := (c =? d) || ((c =? 1) && (d =? 0)) || ((c =? 3) && (d =? 2)) || ((c =? 5) && (d =? 4)) || ((c =? 6) && (d =? 4)) in
+      let want := forallb (fun c => isa c first) items in
+      Bool.eqb accepted want && vt_first && (stored =? (if want then len items + 1 else 1))
   end.
